@@ -571,4 +571,250 @@ theorem registry_activations_map_same {β : Type} (f : Validator → β) (cfg : 
       simp only []
       rw [map_set_same f w i v _ h (hf v _)]; exact hw
 
+/-! ### the first loop of `process_registry_updates`: marks and ejections commute -/
+
+/-- mark one validator eligible -/
+def mark1 (e : Nat) (w : List Validator) (j : Nat) : List Validator :=
+  match w[j]? with
+  | some v => w.set j { v with activation_eligibility_epoch := e }
+  | none => w
+
+theorem setEligibility_eq (e : Nat) (S : List Nat) (w : List Validator) :
+    Impl.setEligibility e S w = S.foldl (mark1 e) w := rfl
+
+theorem mark1_getElem? (e : Nat) (w : List Validator) (j k : Nat) :
+    (mark1 e w j)[k]? = if j = k then (w[k]?).map (fun v => { v with activation_eligibility_epoch := e }) else w[k]? := by
+  unfold mark1
+  cases h : w[j]? with
+  | none =>
+    simp only []
+    split
+    · rename_i hjk; subst hjk; simp [h]
+    · rfl
+  | some v =>
+    simp only [List.getElem?_set]
+    split
+    · rename_i hjk; subst hjk
+      obtain ⟨hi, hget⟩ := List.getElem?_eq_some_iff.mp h
+      simp [hi, hget]
+    · rfl
+
+theorem mark1_map_same {β : Type} (f : Validator → β) (e : Nat) (w : List Validator) (j : Nat)
+    (hf : ∀ v a, f { v with activation_eligibility_epoch := a } = f v) : (mark1 e w j).map f = w.map f := by
+  unfold mark1
+  cases h : w[j]? with
+  | none => rfl
+  | some v => exact map_set_same f w j v _ h (hf v _)
+
+/-- `next` only reads exit epochs and activity -/
+theorem next_congr (cfg : Config) (cur : Nat) (w w' : List Validator)
+    (h : w.map (fun v => (v.exit_epoch, v.activation_epoch)) = w'.map (fun v => (v.exit_epoch, v.activation_epoch))) :
+    next cfg cur w = next cfg cur w' := by
+  have hex : exits w = exits w' := by
+    have : ∀ l : List Validator, exits l =
+        ((l.map (fun v => (v.exit_epoch, v.activation_epoch))).filter (fun p => decide (p.1 ≠ FAR_FUTURE_EPOCH))).map (·.1) := by
+      intro l
+      rw [List.filter_map, List.map_map]
+      rfl
+    rw [this w, this w', h]
+  have hq : ∀ E, qcount w E = qcount w' E := by
+    intro E
+    have : ∀ l : List Validator, qcount l E =
+        ((l.map (fun v => (v.exit_epoch, v.activation_epoch))).filter (fun p => decide (p.1 = E))).length := by
+      intro l
+      rw [List.filter_map, List.length_map]
+      rfl
+    rw [this w, this w', h]
+  have hc : churn_limit_of cfg w cur = churn_limit_of cfg w' cur := by
+    have : ∀ l : List Validator, (l.filter (fun v => is_active_validator v cur)).length =
+        ((l.map (fun v => (v.exit_epoch, v.activation_epoch))).filter (fun p => decide (p.2 ≤ cur) && decide (cur < p.1))).length := by
+      intro l
+      rw [List.filter_map, List.length_map]
+      rfl
+    unfold churn_limit_of
+    rw [this w, this w', h]
+  unfold next qmax
+  rw [hex, hq, hc]
+
+theorem ive_unfold (cfg : Config) (cur : Nat) (w : List Validator) (k : Nat) :
+    initiate_validator_exit_pure cfg cur w k =
+      match w[k]? with
+      | none => w
+      | some v => if v.exit_epoch ≠ FAR_FUTURE_EPOCH then w else w.set k (exited cfg v (next cfg cur w)) := by
+  cases h : w[k]? with
+  | none => unfold initiate_validator_exit_pure; simp [h]
+  | some v =>
+    by_cases hf : v.exit_epoch = FAR_FUTURE_EPOCH
+    · simp only [hf, ne_eq, not_true_eq_false, ↓reduceIte]
+      exact ive_eq cfg cur w k v h hf
+    · unfold initiate_validator_exit_pure; simp [h, hf]
+
+/-- `initiate_validator_exit` commutes with marking a validator eligible -/
+theorem ive_mark1_comm (cfg : Config) (cur e : Nat) (w : List Validator) (j k : Nat) :
+    initiate_validator_exit_pure cfg cur (mark1 e w j) k = mark1 e (initiate_validator_exit_pure cfg cur w k) j := by
+  have hnext : next cfg cur (mark1 e w j) = next cfg cur w :=
+    next_congr cfg cur _ _ (mark1_map_same _ e w j (fun _ _ => rfl))
+  rw [ive_unfold, ive_unfold, mark1_getElem?]
+  by_cases hjk : j = k
+  · subst hjk
+    cases h : w[j]? with
+    | none => simp [mark1, h]
+    | some v =>
+      simp only [↓reduceIte, Option.map_some]
+      by_cases hf : v.exit_epoch = FAR_FUTURE_EPOCH
+      · simp only [hf, ne_eq, not_true_eq_false, ↓reduceIte, hnext]
+        obtain ⟨hi, _⟩ := List.getElem?_eq_some_iff.mp h
+        unfold mark1
+        simp [hi, List.set_set, exited]
+      · simp only [ne_eq, hf, not_false_eq_true, ↓reduceIte]
+  · simp only [hjk, ↓reduceIte]
+    cases h : w[k]? with
+    | none => rfl
+    | some v =>
+      simp only []
+      by_cases hf : v.exit_epoch = FAR_FUTURE_EPOCH
+      · simp only [hf, ne_eq, not_true_eq_false, ↓reduceIte, hnext]
+        unfold mark1
+        rw [List.getElem?_set_ne (fun h' => hjk h'.symm)]
+        cases hj : w[j]? with
+        | none => rfl
+        | some u => simp only []; rw [List.set_comm _ _ (fun h' => hjk h')]
+      · simp only [ne_eq, hf, not_false_eq_true, ↓reduceIte]
+
+theorem ive_marks_comm (cfg : Config) (cur e : Nat) (S : List Nat) (w : List Validator) (k : Nat) :
+    initiate_validator_exit_pure cfg cur (S.foldl (mark1 e) w) k = S.foldl (mark1 e) (initiate_validator_exit_pure cfg cur w k) := by
+  induction S generalizing w with
+  | nil => rfl
+  | cons j js ih =>
+    simp only [List.foldl_cons]
+    rw [ih (mark1 e w j), ive_mark1_comm]
+
+theorem ive_getElem?_ne (cfg : Config) (cur : Nat) (w : List Validator) (j k : Nat) (h : j ≠ k) :
+    (initiate_validator_exit_pure cfg cur w j)[k]? = w[k]? := by
+  rw [ive_unfold]
+  cases hj : w[j]? with
+  | none => rfl
+  | some v =>
+    simp only []
+    split
+    · rfl
+    · rw [List.getElem?_set_ne h]
+
+theorem marks_getElem?_notin (e : Nat) (S : List Nat) (w : List Validator) (k : Nat) (h : k ∉ S) :
+    (S.foldl (mark1 e) w)[k]? = w[k]? := by
+  induction S generalizing w with
+  | nil => rfl
+  | cons j js ih =>
+    simp only [List.foldl_cons]
+    rw [ih _ (fun h' => h (by simp [h'])), mark1_getElem?]
+    have : j ≠ k := fun h' => h (by simp [h'])
+    simp [this]
+
+theorem ives_getElem?_notin (cfg : Config) (cur : Nat) (S : List Nat) (w : List Validator) (k : Nat) (h : k ∉ S) :
+    (S.foldl (initiate_validator_exit_pure cfg cur) w)[k]? = w[k]? := by
+  induction S generalizing w with
+  | nil => rfl
+  | cons j js ih =>
+    simp only [List.foldl_cons]
+    rw [ih _ (fun h' => h (by simp [h'])), ive_getElem?_ne]
+    exact fun h' => h (by simp [h'])
+
+/-- the spec's condition for an ejection that changes something, on the original registry -/
+def pEject (cfg : Config) (cur : Nat) (vals : List Validator) (i : Nat) : Bool :=
+  match vals[i]? with
+  | some v => is_active_validator v cur && decide (v.effective_balance ≤ cfg.EJECTION_BALANCE) && v.exit_epoch == FAR_FUTURE_EPOCH
+  | none => false
+
+def pMark (cfg : Config) (vals : List Validator) (i : Nat) : Bool :=
+  match vals[i]? with
+  | some v => is_eligible_for_activation_queue cfg v
+  | none => false
+
+theorem filter_range_succ (p : Nat → Bool) (k : Nat) :
+    (List.range (k + 1)).filter p = (List.range k).filter p ++ (if p k then [k] else []) := by
+  rw [List.range_succ, List.filter_append]
+  simp only [List.filter_cons, List.filter_nil]
+
+theorem notin_filter_range (p : Nat → Bool) (k : Nat) : k ∉ (List.range k).filter p := by
+  intro h
+  have := (List.mem_filter.mp h).1
+  simp at this
+
+/-- The first loop of `process_registry_updates`, validator by validator (eligibility mark, then ejection through
+`initiate_validator_exit`), equals: all ejections first (on the validators that were ejectable at the start, in index
+order), then all eligibility marks. -/
+theorem first_loop_prefix (cfg : Config) (cur : Nat) (vals : List Validator) (k : Nat) :
+    (List.range k).foldl (fun vals index =>
+      match vals[index]? with
+      | none => vals
+      | some validator =>
+        let vals :=
+          if is_eligible_for_activation_queue cfg validator then
+            vals.set index { validator with activation_eligibility_epoch := cur + 1 }
+          else vals
+        if is_active_validator validator cur && validator.effective_balance ≤ cfg.EJECTION_BALANCE then
+          initiate_validator_exit_pure cfg cur vals index
+        else vals) vals =
+    ((List.range k).filter (pMark cfg vals)).foldl (mark1 (cur + 1))
+      (((List.range k).filter (pEject cfg cur vals)).foldl (initiate_validator_exit_pure cfg cur) vals) := by
+  induction k with
+  | zero => rfl
+  | succ k ih =>
+    rw [List.range_succ, List.foldl_append, ih]
+    simp only [List.filter_append, List.filter_cons, List.filter_nil, List.foldl_append]
+    generalize hW : ((List.range k).filter (pEject cfg cur vals)).foldl (initiate_validator_exit_pure cfg cur) vals = W
+    have hk : (((List.range k).filter (pMark cfg vals)).foldl (mark1 (cur + 1)) W)[k]? = vals[k]? := by
+      rw [marks_getElem?_notin _ _ _ _ (notin_filter_range _ k), ← hW,
+        ives_getElem?_notin _ _ _ _ _ (notin_filter_range _ k)]
+    simp only [List.foldl_cons, List.foldl_nil, hk]
+    cases hv : vals[k]? with
+    | none => simp [pEject, pMark, hv]
+    | some v =>
+      simp only [pEject, pMark, hv]
+      -- the mark
+      have hmark : (if is_eligible_for_activation_queue cfg v = true then
+            (((List.range k).filter (pMark cfg vals)).foldl (mark1 (cur + 1)) W).set k
+              { v with activation_eligibility_epoch := cur + 1 }
+          else ((List.range k).filter (pMark cfg vals)).foldl (mark1 (cur + 1)) W) =
+          (if is_eligible_for_activation_queue cfg v = true then [k] else []).foldl (mark1 (cur + 1))
+            (((List.range k).filter (pMark cfg vals)).foldl (mark1 (cur + 1)) W) := by
+        split
+        · simp only [List.foldl_cons, List.foldl_nil, mark1, hk, hv]
+        · rfl
+      rw [hmark, ← List.foldl_append]
+      generalize hM : (List.range k).filter (pMark cfg vals) ++ (if is_eligible_for_activation_queue cfg v = true then [k] else []) = M
+      by_cases hact : (is_active_validator v cur && decide (v.effective_balance ≤ cfg.EJECTION_BALANCE)) = true
+      · rw [if_pos hact, ive_marks_comm]
+        by_cases hfar : v.exit_epoch = FAR_FUTURE_EPOCH
+        · simp [hact, hfar, ← hM, List.foldl_append]
+        · -- `initiate_validator_exit` leaves a validator with an exit epoch alone
+          have hWk : W[k]? = some v := by
+            rw [← hW, ives_getElem?_notin _ _ _ _ _ (notin_filter_range _ k)]; exact hv
+          have : initiate_validator_exit_pure cfg cur W k = W := by
+            rw [ive_unfold, hWk]; simp [hfar]
+          rw [this]
+          simp [hact, hfar, ← hM, List.foldl_append]
+      · rw [if_neg hact]
+        have : (is_active_validator v cur && decide (v.effective_balance ≤ cfg.EJECTION_BALANCE) && v.exit_epoch == FAR_FUTURE_EPOCH) = false := by
+          simp only [Bool.not_eq_true] at hact
+          simp [hact]
+        simp [this, ← hM, List.foldl_append]
+
+theorem first_loop_eq (cfg : Config) (cur : Nat) (vals : List Validator) :
+    registry_eligibility_and_ejections_pure cfg cur vals =
+      Impl.setEligibility (cur + 1) (Impl.computeRegistryProcessData cfg vals cur).indicesToSetActivationEligibility
+        ((Impl.computeRegistryProcessData cfg vals cur).indicesToEject.foldl (initiate_validator_exit_pure cfg cur) vals) := by
+  have h1 : (Impl.computeRegistryProcessData cfg vals cur).indicesToEject =
+      (List.range vals.length).filter (pEject cfg cur vals) := by
+    unfold Impl.computeRegistryProcessData
+    exact zip_filter_fst vals (fun f => is_active_validator f cur && decide (f.effective_balance ≤ cfg.EJECTION_BALANCE) &&
+      f.exit_epoch == FAR_FUTURE_EPOCH)
+  have h2 : (Impl.computeRegistryProcessData cfg vals cur).indicesToSetActivationEligibility =
+      (List.range vals.length).filter (pMark cfg vals) := by
+    unfold Impl.computeRegistryProcessData
+    exact zip_filter_fst vals (fun f => f.activation_eligibility_epoch == FAR_FUTURE_EPOCH &&
+      f.effective_balance == cfg.MAX_EFFECTIVE_BALANCE)
+  rw [h1, h2, setEligibility_eq]
+  exact first_loop_prefix cfg cur vals vals.length
+
 end Zrnt.Proofs.Lemmas
